@@ -675,14 +675,16 @@ func analyseQuery(doc *gast.QueryDocument) queryFeatures {
 // classifyQuery attributes any wrong answer to a query with one of these shapes to the finding
 // about that shape.
 func (qf queryFeatures) finding(queryTypeName string) string {
+	// a shape excuses wrong answers only while its finding is listed as known (a fixed
+	// finding no longer attributes anything, so the per-difference recognisers decide)
 	switch {
-	case qf.rootTypenameFirst && queryTypeName != "Query":
+	case qf.rootTypenameFirst && queryTypeName != "Query" && pbt.IsKnown("C17-root-typename-before-introspection-field-with-renamed-query-type"):
 		return "C17-root-typename-before-introspection-field-with-renamed-query-type"
-	case qf.nestedAlias:
+	case qf.nestedAlias && pbt.IsKnown("C17-alias-on-nested-introspection-field"):
 		return "C17-alias-on-nested-introspection-field"
-	case qf.hasVariables && qf.anyIncludeDeprecated:
+	case qf.hasVariables && qf.anyIncludeDeprecated && pbt.IsKnown("C17-includeDeprecated-lost-when-operation-has-variables"):
 		return "C17-includeDeprecated-lost-when-operation-has-variables"
-	case qf.deepRef:
+	case qf.deepRef && pbt.IsKnown("C17-type-reference-not-expandable"):
 		return "C17-type-reference-not-expandable"
 	}
 	return ""
